@@ -73,34 +73,71 @@ func fastaWrite(p *core.Prog, r *core.Report, info *types.Info) {
 	if len(args) != 3 {
 		return
 	}
-	// description
+	// description: f.Desc with every byte that ends a line for the reader replaced. pars.Line, which reads
+	// the header line back, stops at "\n" and at a lone "\r" alike.
 	d := core.Origin(info, asg, args[1])
-	dc, _ := ast.Unparen(d).(*ast.CallExpr)
-	okDesc := false
-	why := "the description operand is not f.Desc with its newlines replaced"
-	if dc != nil && (core.IsCallTo(info, dc, "strings.ReplaceAll") && len(dc.Args) == 3 || core.IsCallTo(info, dc, "strings.Replace") && len(dc.Args) == 4) {
-		from, _ := core.ConstString(info, dc.Args[1])
-		to, okTo := core.ConstString(info, dc.Args[2])
-		sel, isSel := ast.Unparen(dc.Args[0]).(*ast.SelectorExpr)
-		all := true
-		if len(dc.Args) == 4 {
-			n, isC := core.ConstInt(info, dc.Args[3])
-			all = isC && n < 0
+	replaced := map[string]bool{}
+	why := ""
+	var base ast.Expr
+	var peel func(e ast.Expr) bool
+	peel = func(e ast.Expr) bool {
+		e = ast.Unparen(core.Origin(info, asg, e))
+		dc, ok := e.(*ast.CallExpr)
+		if !ok {
+			base = e
+			return true
 		}
 		switch {
+		case core.IsCallTo(info, dc, "strings.ReplaceAll") && len(dc.Args) == 3, core.IsCallTo(info, dc, "strings.Replace") && len(dc.Args) == 4:
+			from, okFrom := core.ConstString(info, dc.Args[1])
+			to, okTo := core.ConstString(info, dc.Args[2])
+			if len(dc.Args) == 4 {
+				if n, isC := core.ConstInt(info, dc.Args[3]); !isC || n >= 0 {
+					why = "only the first line break(s) of the description are replaced: a later one ends the header line early and the rest of the description is read back as residues"
+					return false
+				}
+			}
+			if !okFrom || !okTo || strings.ContainsAny(to, "\n\r>") {
+				why = "the replacement text itself breaks the line"
+				return false
+			}
+			replaced[from] = true
+			return peel(dc.Args[0])
+		case core.FuncID(core.Callee(info, dc)) == "strings.Replacer.Replace" && len(dc.Args) == 1:
+			// strings.NewReplacer(old1, new1, ...).Replace(x)
+			nr, ok := ast.Unparen(core.Origin(info, asg, methodRecvT(dc))).(*ast.CallExpr)
+			if !ok || !core.IsCallTo(info, nr, "strings.NewReplacer") || len(nr.Args)%2 != 0 {
+				why = "the replacer is not a strings.NewReplacer(...) with constant pairs"
+				return false
+			}
+			for k := 0; k < len(nr.Args); k += 2 {
+				from, okFrom := core.ConstString(info, nr.Args[k])
+				to, okTo := core.ConstString(info, nr.Args[k+1])
+				if !okFrom || !okTo || strings.ContainsAny(to, "\n\r>") {
+					why = "a replacement text of the replacer itself breaks the line"
+					return false
+				}
+				replaced[from] = true
+			}
+			return peel(dc.Args[0])
+		}
+		base = e
+		return true
+	}
+	okDesc := peel(d)
+	if okDesc {
+		sel, isSel := base.(*ast.SelectorExpr)
+		switch {
 		case !isSel || sel.Sel.Name != "Desc" || core.ParamIndex(info, fd, core.ObjOf(info, sel.X)) != -1:
-		case from != "\n":
-			why = "the replacement does not target \"\\n\""
-		case !okTo || strings.ContainsAny(to, "\n\r>"):
-			why = "the replacement text itself breaks the line"
-		case !all:
-			why = "only the first newline(s) of the description are replaced: a later one ends the header line early and the rest of the description is read back as residues"
-		default:
-			okDesc = true
+			okDesc, why = false, "the description operand is not f.Desc with its line breaks replaced"
+		case !replaced["\n"]:
+			okDesc, why = false, "the replacement does not target \"\\n\""
+		case !replaced["\r"]:
+			okDesc, why = false, "a carriage return in the description is written as it is: the reader (pars.Line) ends the header line at a lone \"\\r\" just as at \"\\n\", so the rest of the description is read back as residues (Fasta{\"a\\rb\", \"ACGT\"} reads back as description \"a\" and residues \"bACGT\")"
 		}
 	}
 	if okDesc {
-		r.Ok("FASTA-WRITE", key+"|description", p.Pos(d.Pos()), "every newline of the description is replaced")
+		r.Ok("FASTA-WRITE", key+"|description", p.Pos(d.Pos()), "every line break of the description (\\n and \\r) is replaced")
 	} else {
 		r.Bad("FASTA-WRITE", key+"|description", p.Pos(args[1].Pos()), why)
 	}
@@ -522,4 +559,11 @@ func builderTemplate(info *types.Info, body *ast.BlockStmt) (format string, ops 
 		}
 	}
 	return format, ops, at, clean
+}
+
+func methodRecvT(c *ast.CallExpr) ast.Expr {
+	if sel, ok := ast.Unparen(c.Fun).(*ast.SelectorExpr); ok {
+		return sel.X
+	}
+	return nil
 }
